@@ -24,7 +24,7 @@ func main() {
 		os.Exit(replay(o))
 	}
 	rep := hx.NewReport("C17", o.Seed, o.Tier)
-	rep.Rule = "systematic: every documented kind x every hostile AWK value (numbers incl. negative/fractional/2^31/2^63/1e30/nan/inf/float32 ties, strings, numeric strings, unset), every result kind x result data x {no error, nil error, error}, every signature of 0-2 parameters over the 15 kinds x variadic x 0..4 arguments, sampled 3-parameter signatures, every invalid/defined type in every position, all keywords, non-func and nil values, name sets for the index assignment; then random cases. distinct = distinct model request; non-trivial = the function value is a func (not the nil/non-func samples)"
+	rep.Rule = "systematic: every documented kind x every hostile AWK value (numbers incl. negative/fractional/2^31/2^63/1e30/nan/inf/float32 ties, strings, numeric strings, unset), every result kind x result data x {no error, nil error, error}, every signature of 0-2 parameters over the 15 kinds x variadic x 0..4 arguments, sampled 3-parameter signatures, every invalid/defined type in every position, all keywords, non-func and nil values, name sets for the index assignment; histories on a reusable Interpreter (interp.New once, Execute 1..3 times: the same map valid or invalid in every documented way at every sort position, invalid->valid, valid->invalid, other function values, more/fewer functions); then random cases. distinct = distinct model request; non-trivial = the function value is a func (not the nil/non-func samples)"
 	r := hx.NewRand(o.Seed)
 	cases := genCases(o, r)
 
